@@ -7,7 +7,7 @@ lane() {
   p=$1
   for d in seeded/$p seeded/${p}[a-z]; do
     [ -d $d ] || continue
-    out=$(TIER=$TIER TAIL=400 tools/seeded.sh check $d 2>&1)
+    out=$(VSEED_LANE=lane-$p TIER=$TIER TAIL=400 tools/seeded.sh check $d 2>&1)
     rc=$(echo "$out" | grep -oE "rc=[0-9]+" | tail -1 | cut -d= -f2)
     base=$(echo "$out" | grep -q "using base commit" && echo "base-commit" || (echo "$out" | grep -q "using the rebased patch" && echo rebased || echo HEAD))
     unit=$(echo "$out" | grep -E "^\s+\^.* violation " | head -1 | awk '{print $1}')
